@@ -355,7 +355,7 @@ fn check_no_resume(t: &mut Tape, ctx: &Ctx) -> Outcome {
     if nums.is_empty() {
         return Outcome::discard("empty listing");
     }
-    let kind = t.below(7);
+    let kind = t.below(9);
     let n = *t.pick(&nums);
     let cmd = match kind {
         6 => {
@@ -382,9 +382,30 @@ fn check_no_resume(t: &mut Tape, ctx: &Ctx) -> Outcome {
         2 => format!("DELETE {}", n),
         3 => format!("{} REM", pick_line_no(t, &nums)),
         4 => "RENUM 3,0,7".to_string(),
+        7 => "NEW".to_string(),
+        8 => String::new(),
         _ => format!("DELETE {}-", n),
     };
-    let eff = h.edit(&cmd);
+    let eff = if kind == 8 {
+        // a load replaces the program (set_listing is what LOAD ends in)
+        let before = listing(&h.term);
+        let mut l = basic::mach::Listing::default();
+        let texts = ["10 PRINT \"LOADED\"", "20 GOSUB 40:NEXT:RETURN", "30 FOR I=1 TO 2:PRINT I:NEXT", "40 PRINT \"SUB\":RETURN"];
+        for x in texts {
+            let _ = l.load_str(x);
+        }
+        h.note(&format!("set_listing({} lines):\n{}", texts.len(), texts.join("\n")));
+        h.term.rt.set_listing(l, false);
+        let mut o = h.opts(100);
+        h.term.run(&mut o);
+        h.term.take();
+        if h.stopped_run {
+            h.effective_edit_after_stop = true;
+        }
+        before != listing(&h.term)
+    } else {
+        h.edit(&cmd)
+    };
     if !eff || !h.effective_edit_after_stop {
         return Outcome::discard("the final edit did not change the listing");
     }
@@ -401,6 +422,11 @@ fn check_no_resume(t: &mut Tape, ctx: &Ctx) -> Outcome {
     }
     let out = printed(&ev);
     let case = format!("{}\nlisting at the end:\n{}", h.script, listing(&h.term).join("\n"));
+    if flat(&ev).contains("INTERNAL ERROR") {
+        // the documented answers are CAN'T CONTINUE / RETURN WITHOUT GOSUB / NEXT WITHOUT FOR /
+        // UNDEFINED USER FUNCTION; an internal error means a stale address was followed
+        return Outcome::fail("old-execution-resumed-into-edited-program", format!("after an effective edit ({:?}) following a stopped run, {:?} answered {:?}", cmd, probe, flat(&ev)), case);
+    }
     if out.contains('[') || !out.trim().is_empty() {
         return Outcome::fail_sig(
             "old-execution-resumed-into-edited-program",
@@ -416,6 +442,8 @@ fn check_no_resume(t: &mut Tape, ctx: &Ctx) -> Outcome {
         2 | 5 => "edit kind: DELETE",
         3 => "edit kind: insert a line",
         6 => "edit kind: case-only change inside a string literal",
+        7 => "edit kind: NEW",
+        8 => "edit kind: load (set_listing)",
         _ => "edit kind: RENUM",
     });
     labels.sort();
